@@ -6,6 +6,7 @@ import (
 	"math/rand/v2"
 	"os"
 	"path/filepath"
+	"syscall"
 
 	"github.com/spq/pkappa2/internal/index"
 	"github.com/spq/pkappa2/internal/index/converters"
@@ -37,6 +38,7 @@ type crashState struct {
 
 type crashRec struct {
 	path    string
+	ino     uint64
 	last    []byte
 	states  []crashState
 	rewrite bool
@@ -45,14 +47,33 @@ type crashRec struct {
 
 func newCrashRec(path string, rng *rand.Rand) *crashRec {
 	b, _ := os.ReadFile(path)
-	return &crashRec{path: path, last: b, rng: rng}
+	return &crashRec{path: path, last: b, rng: rng, ino: inode(path)}
 }
 
 func (cr *crashRec) hook(site string, n uint64) { cr.observe(site) }
 
+func inode(path string) uint64 {
+	var st syscall.Stat_t
+	if syscall.Stat(path, &st) != nil {
+		return 0
+	}
+	return st.Ino
+}
+
 func (cr *crashRec) observe(site string) {
 	b, err := os.ReadFile(cr.path)
-	if err != nil || bytes.Equal(b, cr.last) {
+	if err != nil {
+		return
+	}
+	if ino := inode(cr.path); ino != cr.ino {
+		// the file was replaced by a rename: atomic, old or new, nothing in between
+		cr.ino = ino
+		cr.rewrite = false
+		cr.states = append(cr.states, crashState{content: b, site: site})
+		cr.last = b
+		return
+	}
+	if bytes.Equal(b, cr.last) {
 		return
 	}
 	s1, s2 := cr.last, b
@@ -79,7 +100,7 @@ func (cr *crashRec) observe(site string) {
 	default:
 		cr.rewrite = true
 	}
-	if !shrunk && e-a > 8 {
+	if !shrunk && e-a > 8 && !(cr.rewrite && os.Getenv("VERIF_NO_TORN_REWRITE") != "") {
 		ks := []int{}
 		if e-a <= 48 {
 			for k := a + 1; k < e; k++ {
